@@ -17,7 +17,7 @@ ID = 'C20'
 LEVEL = 'exploration'
 RULE = ('structured: constructive generator of well-formed header blocks (1..8 fields, ftext names, lines mostly <=78 bytes with boundary lengths 76..80 and long lines up to 998, '
         'folded continuation lines with non-blank text, 8-bit bytes, duplicates, CRLF or LF) + arbitrary body bytes; '
-        'weak: arbitrary byte strings; 7bit: utf-8 text bodies with base64 / quoted-printable / no encoder. '
+        'weak: arbitrary byte strings; 7bit: utf-8 text bodies with base64 / quoted-printable / no encoder, parsed into a fresh envelope or into one that already held and converted another message (also a copy / unpickled copy of it). '
         'non-trivial = folded or 8-bit or duplicate header, body starting with a blank line or containing NUL / lone CR, '
         'or (weak) input without a well-formed header block, or (7bit) body with 8-bit text; distinct = distinct input bytes')
 ASSUMPTIONS = ['field bodies are drawn from HT, SP, 0x21-0x7e, 0x80-0xff (no C0 controls that str.splitlines treats as line breaks)',
